@@ -378,6 +378,63 @@ func rawBytes(r *rand.Rand) []byte {
 	return out
 }
 
+// indexGrid: every index field of a module set to the size of its index space, one past it and 2^32-1;
+// plus a start section naming every function index up to one past the end.  An index the validator
+// fails to range-check reaches the engines, which index without checks.
+func indexGrid(name string, b []byte, feat string) []*Case {
+	w := WalkModule(b)
+	if w.Err != "" {
+		return nil
+	}
+	var out []*Case
+	space := func(kind string) []uint64 {
+		switch kind {
+		case "start-index", "export-index-func", "element-funcidx":
+			return []uint64{w.NFuncs}
+		case "function-typeidx", "import-typeidx":
+			return []uint64{w.NTypes}
+		case "export-index-table", "element-tableidx":
+			return []uint64{w.NTables}
+		case "export-index-mem", "data-memidx":
+			return []uint64{w.NMems}
+		case "export-index-global":
+			return []uint64{w.NGlobals}
+		case "constexpr-index":
+			return []uint64{w.NGlobals, w.NFuncs}
+		}
+		return nil
+	}
+	for _, f := range w.Fields {
+		for _, n := range space(f.Kind) {
+			for _, v := range []uint64{n, n + 1, 1<<32 - 1} {
+				if v == f.Val {
+					continue
+				}
+				out = append(out, mkCase(fmt.Sprintf("%s@%s=%d", name, f.Kind, v), "index-grid", feat, replaceField(b, w, f, u32(v), true), "index-at-bound:"+f.Kind))
+			}
+		}
+	}
+	// start sections
+	hasStart := false
+	insertAt := len(b)
+	for _, s := range w.Sections {
+		if s.ID == 8 {
+			hasStart = true
+		}
+		if s.ID >= 9 && s.ID <= 11 && s.Start < insertAt {
+			insertAt = s.Start
+		}
+	}
+	if !hasStart {
+		for v := uint64(0); v <= w.NFuncs+1 && v < 12; v++ {
+			sec := append([]byte{8}, u32(uint64(len(u32(v))))...)
+			sec = append(sec, u32(v)...)
+			out = append(out, mkCase(fmt.Sprintf("%s+start=%d", name, v), "index-grid", feat, splice(b, insertAt, 0, sec), "start-section-inserted"))
+		}
+	}
+	return out
+}
+
 func pickFeat(r *rand.Rand) string {
 	switch k := r.Intn(10); {
 	case k < 2:
@@ -451,6 +508,27 @@ func fuzz(r *rand.Rand, par, n int, only string) {
 			}
 			for cut := 8; cut < len(b); cut++ {
 				add(mkCase(fmt.Sprintf("%s[:%d]", name, cut), "truncate-every-offset", pickFeat(r), append([]byte{}, b[:cut]...), "truncate-at"))
+			}
+		}
+		// index boundary grid over a few modules
+		ngrid := 12
+		if hx.Thorough() {
+			ngrid = 150
+		}
+		for k := 0; k < ngrid; k++ {
+			if k%2 == 0 {
+				_, b := genSeed(r)
+				for _, c := range indexGrid(fmt.Sprintf("gen%d", k), b, []string{"v2", "v2x"}[k/2%2]) {
+					add(c)
+				}
+			} else {
+				s := small[r.Intn(len(small))]
+				if len(s.bin) > 2048 {
+					continue
+				}
+				for _, c := range indexGrid(s.name, s.bin, "v2x") {
+					add(c)
+				}
 			}
 		}
 		for i := 0; i < total; i++ {
